@@ -99,6 +99,9 @@ def gen_plan(rng, run, tier):
     )
     if entry == "grouped_file":
         cfg["groups"] = split_groups(rng, len(stmts))
+        if rng.random() < 0.3:
+            # a group without statements (first, in the middle or last) adds nothing to the sequence
+            cfg["groups"].insert(rng.randint(0, len(cfg["groups"])), 0)
     return {
         "cfg": cfg,
         "ops": [["stmt", *T.to_json(st)] for st in stmts],
